@@ -1,61 +1,84 @@
 """C01 (second sentence: "No call modifies anything the caller passed in") - static side.
 
-A whole-program may-alias / may-mutate analysis of /repo's CURRENT sources, re-run on every check:
-for every function of every sknetwork/**/*.py (Python `ast`) and every sknetwork/**/*.pyx (the Cython
-source is first rewritten line by line into plain Python - `cdef` declarations dropped, C-typed signatures
-turned into annotations - and then goes through the same `ast` analysis; fail closed when the rewritten
-text does not parse), compute which PARAMETERS (other than `self`) may be modified in place, and emit
+A whole-program may-alias / may-mutate analysis of /repo's CURRENT sources, re-run on every check: for every function
+of every sknetwork/**/*.py (Python `ast`) and every sknetwork/**/*.pyx (the Cython source is first rewritten line by
+line into plain Python - `cdef` declarations become annotations, C-typed signatures become annotated signatures - and
+then goes through the same analysis; fail closed when the rewritten text does not parse), compute which PARAMETERS
+(other than `self`) may be modified in place, and emit into coq/Gen/ArgMut.v
 
-    arg_mutations : list (string * string * string * string)
-        (qualified function, parameter, mutation site "file:line kind", path of aliases)   -- sorted
+    arg_mutations                    : list (string * string * string * string)        -- sorted
+        (qualified public function, parameter, writer "file:function", path of aliases)
+    arg_mutations_undocumented_types : the additional entries when arguments may have types their annotation omits
     n_functions_scanned, n_public_entry_points : nat
 
-into coq/Gen/ArgMut.v.  Props/C01.v pins the list (`arg_mutations_reviewed`), so a source edit that
-creates a new way of writing into a caller's object breaks a proof obligation; the abstract analysis
-itself (alias sets, strong updates, joins, inlined calls) is the one proved sound in
-coq/Proofs/ArgFrameProofs.v on the small language of coq/Model/ArgFrame.v.
+(the statements of each writer, with kind and current line number, are listed in a comment of the generated file: the
+pinned key is the WRITER FUNCTION, not a line number, so that unrelated edits do not break the obligation).
+Props/C01.v pins both lists, so a source edit that creates a new way of writing into a caller's object breaks a proof
+obligation; the abstract domain (alias sets, strong updates, joins, calls analysed on the alias sets of the actuals) is
+the one proved sound in coq/Proofs/ArgFrameProofs.v on the small language of coq/Model/ArgFrame.v.
 
-THE ANALYSIS (flow-sensitive inside a function: assignments to a plain name are strong updates, branches
-are joined, loops iterated to a fixed point; inter-procedural through summaries iterated to a global fixed
-point: MUT = parameters that may be written, RET = parameters the result may alias, per tuple position,
-CAPT = parameters stored into `self`, ATTR = what `self.<attr>` may alias, per class family):
+ENTRY POINTS: every module-level function and every method of every class, each class with its own copy of the methods
+it inherits (self.m() / super().m() are resolved for that class); public = the function and its class do not start
+with '_' (dunder methods are public).  Private helpers are analysed and summarised, not listed.
 
-  roots      every parameter except self/cls, parameters annotated with immutable scalars (int, float, bool,
-             str, tuple of them, Callable, their Optional/Union) or, when not annotated, defaulting to a
-             number/string/bool; C scalars and C++ vectors (passed by value) in .pyx signatures.
-  aliases    x = p; p.attr (every attribute but shape/dtype/ndim/nnz/size/...); p[...] (any subscript: a
-             view or an element); np.asarray / asanyarray / ascontiguousarray / atleast_nd / ravel / reshape
-             / squeeze / transpose / ... ; np.array(p, copy=False); p.reshape / ravel / view / squeeze /
-             transpose / swapaxes / T; p.astype(.., copy=False); p.tocsr() / tocsc() / tocoo() / tolil() /
-             asformat() / asfptype() (scipy returns the same buffers when the format already matches);
-             sparse.csr_matrix(p) and the other sparse constructors without copy=True (also of a
-             (data, indices, indptr) tuple); dict.get / values / items / keys; copy.copy (shallow);
-             `a or b`, `a if c else b`; tuples / lists / dicts containing aliases; iteration variables of
-             `for x in p`, enumerate / zip / reversed / iter / next / map / filter; what a called sknetwork
-             function may return (its RET summary: check_format, get_adjacency, ... return the argument's
-             buffers), the object a sknetwork constructor or method stores its argument in (CAPT);
-             UNKNOWN methods of an alias are assumed to return an alias (conservative).
-  no alias   .copy(), .astype(T) with the default copy=True, arithmetic / comparisons (a + b, -a, a.dot(b)),
-             toarray / todense / tolist / flatten, the numpy / scipy functions not listed above (they build
-             new arrays), list / tuple / dict / set / sorted / frozenset (a NEW container; that its elements
-             are shared is not tracked), copy.deepcopy.
-  mutation   on an alias: augmented assignment (also of alias.attr and alias[..]); alias[..] = ..;
-             alias.attr = ..; del alias[..]; del alias.attr; setattr(alias, ..); the in-place methods
-             MUTATORS below; np.fill_diagonal / put / place / putmask / copyto / ndarray.sort-like functions
-             on their first argument; <anything>.shuffle(alias); any call with out=alias; passing the alias
-             to a parameter in MUT of a sknetwork function / method / constructor / Cython kernel.
-  resolution a called simple name -> every sknetwork module-level function or class of that name;
-             obj.m(..) -> every sknetwork method named m (self.m / super().m -> the methods of the classes
-             that can share an object with the current class); summaries of all candidates are joined.
+ABSTRACT VALUES: for each local, the parameters ("roots") it may be related to, each with flags
+  R the very object the caller passed          S a sub-object of it (p.data, an element of a list / dict)
+  V a NEW object on the caller's buffers (p.T, p.reshape(..), sparse.csr_matrix(p), a row / slice of an array)
+  H a NEW container / object holding references to the caller's objects ([p], (p, q), Normalizer(p))
+  A the callee's own *args tuple / **kwargs dict (its elements are R)
+plus, when known, the set of sknetwork classes the value may be an instance of (from constructors, annotations,
+isinstance), whether it certainly is an ndarray / a SciPy sparse matrix, and per tuple position for tuple results.
+Flow-sensitive inside a function (assignment to a name = strong update, branches joined, loops iterated to a fixed
+point, return / raise end a path); each function is analysed once per combination of the DOCUMENTED types of its
+annotated Union / Optional parameters (case split, capped), so that `isinstance(x, T)`, `type(x) == T`, `x is None`,
+`hasattr(x, 'm')` on a parameter select the branch that type takes.  Inter-procedural through summaries iterated to
+a global fixed point: MUT (parameters written, and whether by attribute rebinding on the object itself or deeper),
+RET (what the result may alias, per tuple position), CAPT (parameters stored into self), ATTR (what self.<attr> holds).
 
-TRUSTED BASE (stated, not proved): functions and methods that are neither defined in sknetwork nor listed
-here are assumed PURE (no write into their arguments or receiver); builtin container constructors are
-copies; receiver mutation by sknetwork methods (`self.x *= ..`) is tracked through ATTR only for objects
-stored by an earlier method, not for an object the caller passes as a plain argument (CoNeighbor: D26/C15);
-properties / descriptors are plain attributes; exec / globals / monkey patching do not occur.
-Fails closed (TranslateError) on: a .pyx that does not parse after rewriting, `match`, `global`/`nonlocal`
-of an alias, an unclassifiable assignment target, an unknown method of an alias whose name looks like a
-mutator (ends with a MUTATORS name, with '_', or contains 'inplace')."""
+  roots      every parameter except self, parameters annotated with immutable scalars only (int, float, bool, str,
+             tuple, Callable, np.dtype, RandomState and their Optional / Union) or, when not annotated, defaulting to a
+             number / string / bool; C scalars and C++ vectors (passed by value) in .pyx signatures.  Locals declared with
+             a scalar type (`x: float = ..`, `cdef int x`) never alias.
+  aliases    x = p; p.attr (sub-object; nothing for shape / dtype / ndim / nnz / size ...); p[..] (element of a container,
+             view of an array; a COPY when p certainly is a sparse matrix, or an array indexed by an array / mask);
+             np.asarray / asanyarray / ascontiguousarray / atleast_nd / ravel / reshape / squeeze / transpose ... ;
+             np.array(p, copy=False); p.reshape / ravel / view / squeeze / transpose / swapaxes / T; p.astype(.., copy=False);
+             p.tocsr() / tocsc() / tocoo() / tolil() / asformat() / asfptype() (SciPy returns the object itself or shares
+             its buffers); sparse.csr_matrix(p) and the other sparse constructors without copy=True, also of a
+             (data, indices, indptr) triple; dict.get / values / items / keys; pop / setdefault results; copy.copy;
+             `a or b`, `a if c else b`; tuples / lists / dicts containing aliases (holders); iteration variables;
+             enumerate / zip / reversed / iter / next / map / filter; what a called sknetwork function may return (RET);
+             the object a sknetwork constructor or method stores its argument in (CAPT); UNKNOWN external methods of an
+             alias are assumed to return an alias.
+  no alias   .copy(), .astype(T) with the default copy=True, arithmetic / comparisons, toarray / todense / tolist / flatten
+             / dot / sum ..., csr_matrix((data, (row, col))) (converted through COO), the NumPy / SciPy functions not listed
+             above (they build new arrays), list / tuple / dict / set / sorted (a NEW container; that its elements are
+             shared is not tracked), copy.deepcopy.
+  mutation   on an alias (R, S or V): augmented assignment (also of alias.attr and alias[..]) - EXCEPT `x += S` / `x -= S`
+             when x or S certainly is a SciPy sparse matrix (no in-place form exists: the name is rebound, also for an
+             ndarray x); alias[..] = ..; del alias[..]; the in-place methods MUTATORS below; np.fill_diagonal / put /
+             place / putmask / copyto / put_along_axis / random.shuffle on their first argument; <anything>.shuffle(alias);
+             any call with out=alias; passing the alias to a parameter in MUT of a sknetwork function / method /
+             constructor / Cython kernel.  On R or S only: alias.attr = .., del alias.attr, setattr(alias, ..)
+             (rebinding an attribute of a NEW object on shared buffers does not touch the caller's object).
+  resolution a called simple name -> the sknetwork function of that name defined in / imported into the module (all of
+             that name when the import cannot be followed), or the constructor of the class; obj.m(..) -> the methods m
+             of the classes obj may belong to; every sknetwork method named m when the class is unknown (joined with the
+             NumPy / SciPy meaning of m when m is also one of theirs).
+
+TRUSTED BASE (stated, not proved): functions and methods that are neither defined in sknetwork nor listed here are
+PURE (no write into their arguments or receiver; `LinearOperator.dot` dispatching to a sknetwork `_matvec` included);
+annotations give the documented types (an argument annotated with NumPy / SciPy / builtin types only is not a sknetwork
+object; the case split covers exactly the annotated types - other types are covered by the second list); builtin
+container constructors are copies; `x += S` on a LIST x with a sparse S does not occur; a sknetwork method that
+mutates its RECEIVER is tracked only through ATTR / CAPT (objects stored by an earlier call), not for an object the
+caller passes as a plain argument (CoNeighbor: D26 / C15); properties are plain attributes; no exec / globals / monkey
+patching.  The NumPy / SciPy facts above are probed at run time by harness/workers/c01.py (probe).
+Fails closed (TranslateError) on: a .pyx that does not parse after rewriting or an unreadable Cython declaration,
+`match`, nested / conditional class or function definitions at module level, `global` / `nonlocal` of an alias, an
+unclassifiable assignment / del / augmented-assignment target, an unsupported statement or expression form, an
+unknown method of an alias whose name looks like a mutator (ends with a MUTATORS name or with '_', contains
+'inplace'), a loop or the global iteration that does not stabilise."""
 import ast
 import glob
 import os
@@ -1338,8 +1361,20 @@ class Interp:
             return self.call_name(c, fn.id, args, kws, env)
         if isinstance(fn, ast.Attribute):
             return self.call_attr(c, fn, args, kws, env)
-        self.eval(fn, env)
-        return EMPTY
+        return self.call_object(c, self.eval(fn, env), args, kws, env, None)
+
+    def call_object(self, c, av, args, kws, env, recv):
+        """Calling a value: the __call__ of the sknetwork classes it may belong to (every sknetwork __call__ when its
+        class is unknown); a plain function value is unknown and assumed pure."""
+        if av.types is None:
+            cands = self.prog.methods.get('__call__', [])
+        else:
+            cands = self.prog.resolve_method(av.types, '__call__')
+        out = None
+        for g in cands:
+            r = self.apply(c, g, args, kws, av.flatav(), env, recv=recv)
+            out = r if out is None else join(out, r)
+        return out if out is not None else EMPTY
 
     def _all_args(self, args, kws):
         roots = {}
@@ -1349,7 +1384,7 @@ class Interp:
 
     def call_name(self, c, name, args, kws, env):
         if name in env and name not in self.prog.by_name and name not in self.prog.classes:
-            return EMPTY                                      # a local callable: unknown, assumed pure
+            return self.call_object(c, env[name], args, kws, env, None)   # a local callable (object with __call__, or unknown)
         here = self.prog.classes[self.f.origin]['modname'] if self.f.origin else self.f.modname
         cands = list(self.prog.functions_named(here, name))
         ctor = name in self.prog.classes
@@ -1445,6 +1480,10 @@ class Interp:
             for g in cands:
                 r = self.apply(c, g, args, kws, self.self_av(), env, via_self=True)
                 out = r if out is None else join(out, r)
+            if not cands and self.is_self(recv):
+                stored = self.S.attr.get((self.f.cls, m))
+                if stored is not None and stored.types:
+                    return self.call_object(c, stored, args, kws, env, None)
             return out if out is not None else EMPTY
         # ---- a method of some object
         rav = self.eval(recv, env)
